@@ -114,6 +114,28 @@ def doc_kind(facts):
     return common.memo(facts, "doc_kind", build)
 
 
+def _arm_reaches(crate, enum_path, idx, callee_def):
+    """Some `match` on a value of the enum has an arm for variant `idx` that dominates a call of `callee_def`."""
+    from model import fn_of
+
+    for b in crate.bodies:
+        for bi in sorted(b.reach()):
+            blk = b.blocks[bi]
+            sw = blk["term"]
+            if sw["k"] != "switch":
+                continue
+            on_enum = any(s_["k"] == "assign" and s_["rv"]["k"] == "discr" and b.local_ty(s_["rv"]["p"]["l"]).lstrip("&").replace("mut ", "").startswith(enum_path) for s_ in blk["stmts"])
+            if not on_enum:
+                continue
+            tg = [t_ for v_, t_ in sw["targets"] if v_ == idx]
+            if not tg:
+                continue
+            for cb, ct in b.calls():
+                if (fn_of(ct) or {}).get("def") == callee_def and b.edge_dominates(bi, idx, tg[0], cb):
+                    return True
+    return False
+
+
 def bin_vocab(facts):
     """CLI input types: the opened input (stdin | File | Mmap) and the input path (stdin | PathBuf)."""
 
@@ -127,7 +149,11 @@ def bin_vocab(facts):
             filev = [x for x in vs if len(x["fields"]) == 1 and x["fields"][0]["ty"] == "std::fs::File"]
             mapv = [x for x in vs if len(x["fields"]) == 1 and x["fields"][0]["ty"].startswith("memmap2::Mmap")]
             pathv = [x for x in vs if len(x["fields"]) == 1 and x["fields"][0]["ty"] == "std::path::PathBuf"]
-            if len(vs) == 3 and len(unit) == 1 and len(filev) == 1 and len(mapv) == 1:
+            if len(vs) >= 3 and len(unit) > 1 and len(filev) == 1 and len(mapv) == 1:
+                # more than one payload-less variant (a new "already buffered" mode next to stdin): standard input
+                # is the one whose match arm reaches io::stdin()
+                unit = [u for u in unit if _arm_reaches(binc, p, u["idx"], "std::io::stdin")]
+            if len(vs) >= 3 and len(unit) == 1 and len(filev) == 1 and len(mapv) == 1:
                 opened.append((p, {"path": p, "short": p.rsplit("::", 1)[-1], "stdin": unit[0]["name"], "stdin_idx": unit[0]["idx"], "file": filev[0]["name"], "file_idx": filev[0]["idx"], "mmap": mapv[0]["name"], "mmap_idx": mapv[0]["idx"]}))
             if len(vs) == 2 and len(unit) == 1 and len(pathv) == 1:
                 paths.append((p, {"path": p, "short": p.rsplit("::", 1)[-1], "stdin": unit[0]["name"], "stdin_idx": unit[0]["idx"], "file": pathv[0]["name"], "file_idx": pathv[0]["idx"]}))
